@@ -241,7 +241,7 @@ def run(ctx):
     # the emitters other than the two file emitters reach no fs-mutating call
     writers = {c.fn.root or c.fn.id for c in calls}
     for f in p.fns.values():
-        if f.id.endswith("::emit_formatted_file") and f.impl and f.impl.get("trait", "").endswith("::Emitter"):
+        if f.id.endswith("::emit_formatted_file") and f.impl and (f.impl.get("trait") or "").endswith("::Emitter"):
             reach = p.reach_from([f.id])
             w = sorted(x for x in reach if x in writers)
             is_file = "FilesEmitter" in f.id or "FilesWithBackupEmitter" in f.id
@@ -388,7 +388,7 @@ def has_diff_faithful(ctx, rid):
     else:
         f = hf[0]
         paths = explore(f, is_effect=lambda c: c.name.endswith("FormatReport::add_diff"),
-                        pure=lambda c: c.name.endswith("source_file::write_file"))
+                        pure=lambda c: c.name.endswith("source_file::write_file"), program=p, inline="auto")
         r.paths(rid, len(paths))
         for path in paths:
             if path.end != "ret":
@@ -482,8 +482,11 @@ def single_feed(ctx, rid):
     r.rule(rid, "Emitter::emit_formatted_file is called only from source_file::write_file, which builds the FormattedFile "
                 "from its own formatted_text parameter; Config::emit_mode is read only by create_emitter and "
                 "coverage::transform_missing_snippet, the latter being the identity for every mode but Coverage")
+    def is_emitter_method(fid):
+        g = p.fns.get(fid or "")
+        return g is not None and g.impl is not None and (g.impl.get("trait") or "").endswith("::Emitter")
     sites = [c for c in p.all_calls() if (c.declared or "").endswith("Emitter::emit_formatted_file")
-             or (c.resolved or "").endswith("::emit_formatted_file")]
+             or ((c.resolved or "").endswith("::emit_formatted_file") and is_emitter_method(c.resolved))]
     for c in sites:
         ok = c.fn.id.startswith("rustfmt_nightly::source_file::write_file")
         r.instance(rid, c.key(), "ok" if ok else "violation", c.loc())
